@@ -42,7 +42,7 @@ type c07Case struct {
 	I, T    time.Duration
 	Carrier string
 	Rev     int
-	Reacts  []hbReact // v4: per ping (cycled)
+	Reacts  []hbReact       // v4: per ping (cycled)
 	Pings   []time.Duration // v3: gaps between client pings, relative to the previous ping (or open)
 	Extras  []hbExtra
 	Rounds  int
